@@ -97,6 +97,9 @@ func body(d driver) func(c *explore.Ctx) {
 		for _, v := range e.Violations {
 			c.Fail(v[0]+":"+d.name, "%s [schedule: %s]", v[1], sched())
 		}
+		for _, v := range hook.TakeViolations() { // reported while no scheduler was installed (warm-up calls)
+			c.Fail(v[0]+":"+d.name, "%s [during the warm-up calls]", v[1])
+		}
 		if e.Deadlock == "" {
 			for i := range calls {
 				if pv, site := e.Panicked(i); pv != nil {
